@@ -829,14 +829,21 @@ def rule_collect(ctx):
     # (Formula::variables lists the variables that occur in atoms and comparisons; a bound variable that occurs nowhere is not needed for freshness)
     for adt in ("Formula", "AtomicFormula", "Guard", "GeneralTerm", "IntegerTerm", "SymbolicTerm"):
         collect.check_method(ctx, "COLLECT", fx, S + adt, "variables", reach, exempt=("QuantifiedFormula.quantification.variables",))
-    # conjoin
+    check_conjoin(ctx)
+
+
+def check_conjoin(ctx):
+    fx = ctx.facts
+    S = "syntax_tree::fol::sigma_0::"
     cb = [b for b in fx.body_list if b["def_path"] == S + "Formula::conjoin"]
     if len(cb) != 1:
         raise AnalysisGap("Formula::conjoin not found")
-    v = sym.Eval(fx, inline_depth=0).function(cb[0])
-    ks = key(v)
-    ctx.add("TPL", "conjoin", "BinaryConnective::Conjunction" in ks and "AtomicFormula::Truth" in ks and "Disjunction" not in ks, ctx.site(cb[0]),
-            "Formula::conjoin folds its items with Conjunction and yields #true for none")
+    v = sym.Eval(fx, inline_depth=0).function(cb[0], [P("$fs")])
+    want = ("call", "Option::unwrap_or", (("call", "Iterator::reduce", (P("$fs"), ("closure", ("acc", "e"), ("ctor", "Formula::BinaryFormula", (
+        ("connective", ("ctor", "BinaryConnective::Conjunction", ())), ("lhs", ("param", "acc")), ("rhs", ("param", "e"))))))),
+        ("ctor", "Formula::AtomicFormula", (("0", ("ctor", "AtomicFormula::Truth", ())),))))
+    ctx.add("TPL", "conjoin", v == want, ctx.site(cb[0]), "Formula::conjoin is the left-nested conjunction of all items in order, and #true for none", construct=v)
+
 
 
 RULES = [rule_val, rule_tau_b, rule_tau_star, rule_choosers, rule_zclass, rule_collect]
